@@ -243,6 +243,7 @@ func (tl *TokenList) Prev() Token {
 }
 
 func (tl *TokenList) Cur() Token {
+	vTokStep()
 	if tl.cur == len(tl.tokens) {
 		return EOFToken
 	}
